@@ -111,8 +111,17 @@ fn render(seg: &Seg, variant: usize) -> Vec<u8> {
             let sep = if variant % 4 == 3 { ":" } else { ": " };
             format!("{}{}{}\r\n", name, sep, value).into_bytes()
         }
-        "cl" => format!("{}: {}\r\n", if variant % 2 == 0 { "Content-Length" } else { "content-length" }, seg.n).into_bytes(),
-        "te" => format!("{}: chunked\r\n", if variant % 2 == 0 { "Transfer-Encoding" } else { "transfer-encoding" }).into_bytes(),
+        // framing header names in any case (field names are case-insensitive)
+        "cl" => format!("{}: {}\r\n", ["Content-Length", "content-length", "CONTENT-LENGTH", "cOnTeNt-lEnGtH"][variant % 4], seg.n).into_bytes(),
+        "hugecl" => format!("{}: {}\r\n", ["Content-Length", "content-length", "CONTENT-LENGTH", "cOnTeNt-lEnGtH"][variant % 4], match seg.v.as_str() {
+            "2^32" => "4294967296",
+            "2^63-1" => "9223372036854775807",
+            _ => "18446744073709551615",
+        })
+        .into_bytes(),
+        // (seg.v, when given, is the spelling of the coding name: transfer-coding names are case-insensitive)
+        "te" => format!("{}: {}\r\n", ["Transfer-Encoding", "transfer-encoding", "TRANSFER-ENCODING", "tRaNsFeR-eNcOdInG"][variant % 4],
+                        if seg.v.is_empty() { "chunked" } else { seg.v.as_str() }).into_bytes(),
         "blank" => b"\r\n".to_vec(),
         "data" => unhex(&seg.v),
         "chunk" => {
@@ -129,11 +138,22 @@ fn render(seg: &Seg, variant: usize) -> Vec<u8> {
             "nospace" => b"HTTP/1.1\r\n\r\n".to_vec(),
             "empty-line" => b"\r\n\r\n".to_vec(),
             "bigcode" => b"HTTP/1.1 99999 Huge\r\n\r\n".to_vec(),
+            "code0" => b"HTTP/1.1 000 Zero\r\nContent-Length: 0\r\n\r\n".to_vec(),
+            "code99" => b"HTTP/1.1 99 Low\r\nContent-Length: 0\r\n\r\n".to_vec(),
+            "code600" => b"HTTP/1.1 600 High\r\nContent-Length: 0\r\n\r\n".to_vec(),
+            "code1000" => b"HTTP/1.1 1000 Four\r\nContent-Length: 0\r\n\r\n".to_vec(),
+            "code65536" => b"HTTP/1.1 65536 Wrap\r\nContent-Length: 0\r\n\r\n".to_vec(),
             "ssh" => b"SSH-2.0-OpenSSH_9.6\r\n".to_vec(),
             _ => b"\x01\x02 garbage\n".to_vec(),
         },
         "badhdr" => b"NoColonHere\r\n".to_vec(),
-        "badcl" => b"Content-Length: abc\r\n".to_vec(),
+        "badcl" => format!("Content-Length: {}\r\n", match seg.v.as_str() {
+            "2^64" => "18446744073709551616",
+            "-1" => "-1",
+            "empty" => "",
+            _ => "abc",
+        })
+        .into_bytes(),
         "badchunk" => b"zz\r\n".to_vec(),
         _ => vec![],
     }
@@ -144,14 +164,15 @@ fn render(seg: &Seg, variant: usize) -> Vec<u8> {
 // ------------------------------------------------------------------------------------------------
 fn project_response(r: &Response) -> Value {
     let code: u16 = r.status_code.into();
-    let mut hdrs: Vec<String> = r
+    // the order Headers::iter() yields, which is the order the server later serialises: same-named headers must
+    // have kept their relative order
+    let hdrs: Vec<String> = r
         .headers
         .iter()
         .map(|h| (h.name.to_string().to_ascii_lowercase(), h.value))
         .filter(|(n, _)| n != "content-length" && n != "transfer-encoding")
         .map(|(n, v)| format!("{}: {}", n, v))
         .collect();
-    hdrs.sort();
     let gen = code == 502 && r.body == PAGE_502 && hdrs.is_empty();
     if gen {
         json!({"kind": "502", "code": 502, "hdrs": [], "body": ""})
@@ -165,7 +186,7 @@ fn special(kind: &str) -> Value {
 }
 
 fn no_fwd() -> Value {
-    json!({"m": "", "uri": "", "q": "", "ver": "", "hdrs": [], "body": ""})
+    json!({"m": "", "uri": "", "q": "", "ver": "", "hdrs": [], "body": "", "pad": 0})
 }
 
 /// The request as the upstream saw it, in the shape of the model's `fwd`; .1 = a complete request was received.
@@ -197,18 +218,32 @@ fn project_request(bytes: &[u8]) -> (Value, bool) {
         }
         hdrs.push(format!("{}: {}", n, v));
     }
-    hdrs.sort();
     let ok = match cl {
         Some(n) => body.len() == n,
         None => true,
     };
-    let b = if body.is_empty() { "-".to_string() } else { hex(body) };
-    (json!({"m": m, "uri": uri, "q": q, "ver": ver, "hdrs": hdrs, "body": b}), ok)
+    // a body of a MiB or more is reported as (prefix, whole MiB of the filler byte) when that is exactly what it is
+    let mut pad = 0usize;
+    let mut shown = body;
+    if body.len() >= 1 << 20 {
+        let tail = body.iter().rev().take_while(|x| **x == b'x').count();
+        pad = tail >> 20;
+        if body.len() - (pad << 20) <= 4096 && body[body.len() - (pad << 20)..].iter().all(|x| *x == b'x') {
+            shown = &body[..body.len() - (pad << 20)];
+        } else {
+            pad = 0;
+            shown = &body[..4096]; // not what was sent: report a prefix, the lengths differ anyway
+        }
+    }
+    let b = if shown.is_empty() && pad == 0 { "-".to_string() } else { hex(shown) };
+    (json!({"m": m, "uri": uri, "q": q, "ver": ver, "hdrs": hdrs, "body": b, "pad": pad}), ok)
 }
 
+/// header lists compare exactly up to the order of DIFFERENT names: a stable sort by name keeps same-named headers
+/// in their relative order (HdrEq in ProxyMsg.tla)
 fn sorted_strs(v: &Value) -> Vec<String> {
     let mut x: Vec<String> = v.as_array().map(|a| a.iter().map(|s| s.as_str().unwrap_or("").to_string()).collect()).unwrap_or_default();
-    x.sort();
+    x.sort_by(|a, b| a.split(':').next().unwrap_or("").cmp(b.split(':').next().unwrap_or("")));
     x
 }
 
@@ -217,7 +252,7 @@ fn ans_eq(a: &Value, b: &Value) -> bool {
 }
 
 fn fwd_eq(a: &Value, b: &Value) -> bool {
-    a["m"] == b["m"] && a["uri"] == b["uri"] && a["q"] == b["q"] && a["ver"] == b["ver"] && a["body"] == b["body"]
+    a["m"] == b["m"] && a["uri"] == b["uri"] && a["q"] == b["q"] && a["ver"] == b["ver"] && a["body"] == b["body"] && a["pad"] == b["pad"]
         && sorted_strs(&a["hdrs"]) == sorted_strs(&b["hdrs"])
 }
 
@@ -228,6 +263,7 @@ fn fwd_eq(a: &Value, b: &Value) -> bool {
 enum Ev {
     Send(u64, Vec<u8>), // at tick, bytes
     Close(u64, bool),   // at tick, reset (SO_LINGER 0) instead of FIN
+    Read(u64),          // at tick: a target that was not reading starts to read the request
 }
 
 struct Case {
@@ -396,14 +432,22 @@ fn set_linger0(s: &TcpStream) {
 
 fn read_request(s: &mut TcpStream, deadline: Instant) -> Vec<u8> {
     let mut buf: Vec<u8> = vec![];
-    let mut tmp = [0u8; 4096];
+    let mut tmp = vec![0u8; 256 * 1024];
     let _ = s.set_read_timeout(Some(Duration::from_millis(20)));
+    let mut total: Option<usize> = None; // head + announced body, once the head is complete
+    let mut scanned = 0usize;
     loop {
-        if let Some(p) = buf.windows(4).position(|w| w == b"\r\n\r\n") {
-            let head = String::from_utf8_lossy(&buf[..p]).to_ascii_lowercase();
-            let need = head.split("\r\n").filter_map(|l| l.strip_prefix("content-length:")).filter_map(|v| v.trim().parse::<usize>().ok()).next().unwrap_or(0);
-            if buf.len() >= p + 4 + need {
-                // a little patience for bytes beyond the announced length (they would be a defect)
+        if total.is_none() {
+            let from = scanned.saturating_sub(3);
+            if let Some(p) = buf[from..].windows(4).position(|w| w == b"\r\n\r\n").map(|p| p + from) {
+                let head = String::from_utf8_lossy(&buf[..p]).to_ascii_lowercase();
+                let need = head.split("\r\n").filter_map(|l| l.strip_prefix("content-length:")).filter_map(|v| v.trim().parse::<usize>().ok()).next().unwrap_or(0);
+                total = Some(p + 4 + need);
+            }
+            scanned = buf.len();
+        }
+        if let Some(t) = total {
+            if buf.len() >= t {
                 return buf;
             }
         }
@@ -447,7 +491,7 @@ fn run_case(c: &Case, state: &Arc<AppState>) -> Obs {
     let events = c.events.clone();
     let rel2 = release.clone();
     let noread = c.noread;
-    if noread {
+    if noread || c.events.iter().any(|e| matches!(e, Ev::Read(_))) {
         // a small receive buffer (inherited by the accepted socket) so that "larger than the buffers" is a few MiB
         if let Some(l) = &listener {
             use std::os::unix::io::AsRawFd;
@@ -478,7 +522,8 @@ fn run_case(c: &Case, state: &Arc<AppState>) -> Obs {
         let t0 = Instant::now();
         s.set_nonblocking(false).ok();
         s.set_nodelay(true).ok();
-        let seen = if noread { vec![] } else { read_request(&mut s, t0 + tick / 2) };
+        let late = events.iter().any(|e| matches!(e, Ev::Read(_)));
+        let mut seen = if noread || late { vec![] } else { read_request(&mut s, t0 + tick / 2) };
         let mut open = true;
         for e in events {
             match e {
@@ -488,6 +533,10 @@ fn run_case(c: &Case, state: &Arc<AppState>) -> Obs {
                         break;
                     }
                     let _ = s.flush();
+                }
+                Ev::Read(t) => {
+                    sleep_until(t0 + tick * (t as u32));
+                    seen = read_request(&mut s, Instant::now() + Duration::from_millis(4000));
                 }
                 Ev::Close(t, rst) => {
                     sleep_until(t0 + tick * (t as u32));
@@ -623,6 +672,7 @@ fn replay_job(v: Value, timeout_ms: u64, ticks: u64) -> ReplayJob {
             }
             // a reset instead of an orderly close is used only where the expected answer is 502 anyway
             "close" => events.push(Ev::Close(t, exp502 && id % 4 == 3)),
+            "read" => events.push(Ev::Read(t)),
             _ => {}
         }
     }
@@ -633,7 +683,7 @@ fn replay_job(v: Value, timeout_ms: u64, ticks: u64) -> ReplayJob {
         route: v["route"].as_str().unwrap_or("/*").to_string(),
         connected: v["connected"].as_bool().unwrap_or(true),
         blackhole: v["kind"] == "blackhole",
-        noread: v["kind"] == "noread",
+        noread: v["noread"].as_bool().unwrap_or(false),
         events,
         timeout_ms,
         ticks,
@@ -765,6 +815,25 @@ fn seeds(rng: &mut Rng, n: usize, nbig: usize) -> Vec<(Vec<Seg>, usize)> {
         }
         out.push((segs, 1000 + b));
     }
+    // fixed seeds. Unicode classes in header values (white space that is not SP / HTAB is part of the value),
+    // three hundred chunks, and the coding name spelled "Chunked"
+    let uni = ["x-nbsp: \u{a0}lead and trail\u{a0}", "x-nel: \u{85}x\u{2028}y", "x-wide: \u{3000}\u{1680}z", "x-digits: \u{663}\u{ff11}\u{b2}\u{bd}",
+               "x-case: \u{df}\u{130}\u{fb01}", "x-c1: a\u{80}\u{9f}\u{7f}b", "x-comb: e\u{301}\u{e000}"];
+    let mut segs = vec![Seg::new("status", "", 200)];
+    for h in uni.iter() {
+        segs.push(Seg::new("hdr", h, 0));
+    }
+    segs.extend([Seg::new("cl", "", 2), Seg::new("blank", "", 0), Seg::new("data", "6f6b", 0)]);
+    out.push((segs, 2000));
+    let mut segs = vec![Seg::new("status", "", 200), Seg::new("te", "", 0), Seg::new("blank", "", 0)];
+    for i in 0..300usize {
+        let d: Vec<u8> = (0..(1 + i % 3)).map(|j| b'a' + ((i + j) % 26) as u8).collect();
+        segs.push(Seg::new("chunk", &hex(&d), 0));
+    }
+    segs.push(Seg::new("last", "", 0));
+    out.push((segs, 2001));
+    out.push((vec![Seg::new("status", "", 200), Seg::new("te", "Chunked", 0), Seg::new("hdr", "x-after: 1", 0), Seg::new("blank", "", 0),
+                   Seg::new("chunk", &hex(&[b'q'; 17]), 0), Seg::new("chunk", "7a", 0), Seg::new("last", "", 0)], 2002));
     // two fixed non-HTTP seeds: every prefix of them must give 502 as well
     out.push((vec![Seg::new("garbage", "ssh", 0)], n));
     out.push((vec![Seg::new("status", "", 200), Seg::new("badhdr", "", 0), Seg::new("blank", "", 0)], n + 1));
@@ -803,11 +872,46 @@ struct CutJob {
     term: String,
 }
 
-fn cuts(timeout_ms: u64, threads: usize, stall_mod: usize, nseeds: usize, nbig: usize) {
+fn cuts(timeout_ms: u64, threads: usize, stall_mod: usize, nseeds: usize, nbig: usize, nslow: usize) {
     let mut rng = Rng::from_env();
     let state = app_state();
     let req = json!({"m": "GET", "uri": "/r/x", "q": "a=b", "ver": "HTTP/1.1", "hdrs": ["host: up.example"], "xff": ["198.51.100.4", "10.1.1.1"], "body": "-", "pad": 0, "peer": "127.0.0.1"});
     let mut jobs = vec![];
+    // responses of several MiB, delivered in eight pieces 100 ms apart (well inside a 6 s deadline): they must be
+    // passed on complete. One per framing; the whole response is delivered (no cut).
+    for b in 0..nslow {
+        let fr = ["cl", "chunked", "close"][b % 3];
+        let mib = 2 + b / 3;
+        let mut segs = vec![Seg::new("status", "", 200), Seg::new("hdr", "content-type: application/octet-stream", 0)];
+        let unit = 256 * 1024;
+        let nunits = mib * 4;
+        match fr {
+            "cl" => segs.push(Seg::new("cl", "", (unit * nunits) as u64)),
+            "chunked" => segs.push(Seg::new("te", "", 0)),
+            _ => {}
+        }
+        segs.push(Seg::new("blank", "", 0));
+        for _ in 0..nunits {
+            let u = rng.bytes(unit);
+            segs.push(Seg::new(if fr == "chunked" { "chunk" } else { "data" }, &hex(&u), 0));
+        }
+        if fr == "chunked" {
+            segs.push(Seg::new("last", "", 0));
+        }
+        let bytes: Vec<u8> = segs.iter().flat_map(|s| render(s, b)).collect();
+        let piece = bytes.len() / 8 + 1;
+        let mut events: Vec<Ev> = bytes.chunks(piece).enumerate().map(|(i, c)| Ev::Send(i as u64, c.to_vec())).collect();
+        let term = if fr == "close" { "eof" } else { "stall" };
+        if fr == "close" {
+            events.push(Ev::Close(8, false));
+        }
+        jobs.push(CutJob {
+            id: format!("slow{}{}", b, fr),
+            case: Case { entry: "core".into(), req: req.clone(), route: "/r*".into(), connected: true, blackhole: false, noread: false, events, timeout_ms: 6000, ticks: 60 },
+            segs,
+            term: term.into(),
+        });
+    }
     for (segs, sid) in seeds(&mut rng, nseeds, nbig) {
         let variant = sid;
         let bytes: Vec<u8> = segs.iter().flat_map(|s| render(s, variant)).collect();
@@ -1031,7 +1135,7 @@ fn main() {
     let num = |i: usize, d: u64| -> u64 { a.get(i).and_then(|s| s.parse().ok()).unwrap_or(d) };
     match a.get(1).map(|s| s.as_str()) {
         Some("replay") => replay(num(2, 450), num(3, 3), num(4, 32) as usize),
-        Some("cuts") => cuts(num(2, 300), num(3, 32) as usize, num(4, 4) as usize, num(5, 6) as usize, num(6, 0) as usize),
+        Some("cuts") => cuts(num(2, 300), num(3, 32) as usize, num(4, 4) as usize, num(5, 6) as usize, num(6, 0) as usize, num(7, 0) as usize),
         Some("lb") => lb(num(2, 4) as usize, num(3, 3) as usize, num(4, 0) as usize, num(5, 300) as usize),
         Some("one") => {
             let state = app_state();
